@@ -33,7 +33,7 @@ RULE = ("Hypothesis: full type grammar x a value built from the type and then hi
         "structural induction down to depth 6. Non-trivial = at least two failing positions, or a failure under a union, or "
         "missing/extra/duplicate present; distinct by (type spec, value).")
 ASSUMPTIONS = [
-    "homogeneous-mapping children are keyed by the key itself for str / int keys and by str(key) for other kinds; two keys of other kinds with the same str() are an unspecified cell",
+    "homogeneous-mapping children are keyed by the key itself, whatever its kind (keys that merely print alike - None and 'None' - are different children)",
     "the python field name used as a key when other input names are configured is an unspecified cell",
     "element trees are obtained from pane itself (from_data on the element): this check is about composition, C01 is about verdicts",
 ]
@@ -105,12 +105,9 @@ def check_node(nd: tg.Node, v: t.Any, tr: t.Any, ctx: Ctx, depth: int = 0, where
     if isinstance(nd, tg.Map):
         if not tg.is_map(v):
             return leaf_actual(v)
-        # children are keyed by the key itself where the tree's key type (int | str) can hold it, by str(key) otherwise
+        # children are keyed by the key itself ("keyed by exactly those ... keys"): None and 'None', 1.5 and '1.5' are different keys
         def ckey(k: t.Any) -> t.Any:
-            return k if type(k) in (str, int) else str(k)
-        cks = [ckey(k) for k in v]
-        if len(set(map(repr, cks))) != len(cks):
-            raise _Skip('two keys of other kinds with the same str()')
+            return k
         failing: t.Dict[t.Any, t.Any] = {}
         rec: t.List[t.Tuple[tg.Node, t.Any, t.Any, str]] = []
         for (k, x) in v.items():
